@@ -20,6 +20,8 @@ def _params(tier):
         pos = blobmut.positions(tier, layout)
         if tier == "quick":
             pos = pos[:: 5 if layout == "envelope" else 13]
+            kid = blobmut.blob_layout(layout)["kid"]
+            pos = [q for q in pos if not (kid + 16 <= q < kid + 24)] + ([kid + 20] if layout == "envelope" else [])  # one L2 octet in quick, all in thorough
         out += [dict(kind="byte", p=p, layout=layout) for p in pos]
         n = blobmut.blob_layout(layout)["length"]
         lay = blobmut.blob_layout(layout)
